@@ -144,8 +144,34 @@ let xfail nroot j t v =
   let s = fail_in_addition true (nat_of_int nroot) (nat_of_int j) t v in
   Printf.sprintf "n=%d shape=%d" (List.length (owned t true [] s)) (if shape t s then 1 else 0)
 
+(* ---- round c14w: coq/Rt/HeapW.v ----
+     c14wlist <correct|shared> <k> <bomb|addfail|decfail|decfail0>
+          -> live=<blocks live after k appended elements and that error exit> violation=<none|ledger> free=<ledger after the caller's ASN_STRUCT_FREE>
+     c14wdyn <correct|nofree> <ok|fail> <chunk sizes ...>      (no REALLOC fails)
+          -> result=<buffer|none> allocs=<allocations requested> bs=<size of the block returned> leak=<blocks live after the caller released the result>
+             violation=<none|ledger> *)
+let wlist v k x =
+  let v = (match v with "correct" -> Correct | "shared" -> SharedExit | _ -> raise (Parse "variant")) in
+  let x = (match x with "bomb" -> XBomb | "addfail" -> XAddFail | "decfail" -> XDecFail true | "decfail0" -> XDecFail false | _ -> raise (Parse "exit")) in
+  let k = nat_of_int k in
+  match list_run v k x with
+  | None -> "live=- violation=ledger free=VIOLATION"
+  | Some s -> Printf.sprintf "live=%d violation=none free=%s" (List.length s.live) (ledger_s (list_lifecycle v k x))
+
+let wdyn v ok sizes =
+  let v = (match v with "correct" -> DCorrect | "nofree" -> NoFree | _ -> raise (Parse "variant")) in
+  let script = List.map (fun z -> (nat_of_int (int_of_string z), true)) sizes in
+  match dyn_run v script (ok = "ok") with
+  | None -> "result=- allocs=- bs=- leak=- violation=ledger"
+  | Some (d, r) ->
+    let leak = List.length d.dlive - (match r with Some _ -> 1 | None -> 0) in
+    Printf.sprintf "result=%s allocs=%d bs=%d leak=%d violation=none" (match r with Some _ -> "buffer" | None -> "none")
+      (int_of_nat d.nreq) (match r with Some _ -> int_of_nat d.allocated | None -> 0) leak
+
 let dispatch cmd args =
   match cmd, args with
+  | "c14wlist", [v; k; x] -> Some (wlist v (int_of_string k) x)
+  | "c14wdyn", v :: ok :: sizes -> Some (wdyn v ok sizes)
   | "c14own", [o; t; v] -> Some (own (o = "1") (ty_of t) (val_of v))
   | "c14layout", [k] -> Some (layout k)
   | "c14leaf", [k; h] -> Some (leaf k h)
